@@ -1751,6 +1751,13 @@ func (m *KV) MergeRemoteState(data []byte, _ bool) {
 
 		data = data[kvPairLength:]
 
+		// Same validation as for gossiped messages: a KV pair must have a key.
+		if len(kvPair.Key) == 0 {
+			level.Warn(m.logger).Log("msg", "received an invalid KV Pair in remote state (empty key)")
+			m.numberOfInvalidReceivedMessages.Inc()
+			continue
+		}
+
 		codec := m.GetCodec(kvPair.GetCodec())
 		if codec == nil {
 			level.Error(m.logger).Log("msg", "failed to parse remote state: unknown codec for key", "codec", kvPair.GetCodec(), "key", kvPair.GetKey())
